@@ -235,10 +235,21 @@ def _sh4c(ctx, model, shapes, fi, methods, fillers, results):
                 lv2 = _subst(lv, sub)
                 joint = State(facts=dict(ls.facts))
                 feasible = not shapes_contradiction(shapes, joint, pfi, res)
-                if feasible and lv2 != ev:
+                if feasible and lv2 != ev and not _same_empty(shapes, lv2, ev, {**rel, **ls.facts}, fi, r):
                     diffs.append(f"pre-filled {show(ev)[:50]} but the accessor computes {show(lv2)[:60]}")
             bad = tuple(sorted(set(diffs)))[:1]
             results.setdefault((k + " (definition)", bad), []).append(("", [("same term as the accessor's own definition", not bad)], node))
+
+
+def _same_empty(shapes, a, b, facts, fi, r):
+    """'' written as a literal and a text known to be empty on this path are the same value."""
+    from ..shape import E
+    for x, y in ((a, b), (b, a)):
+        if x == ("const", "") and y[0] != "const":
+            shp = shapes.shape(y, facts, fi, None, r)
+            if shp and shp <= {E}:
+                return True
+    return False
 
 
 def _subst(t, sub):
